@@ -39,6 +39,7 @@ class MemBank:
         self.live = list(live)          # [(first, last)] multi-byte counters that tick
         self.nobble_dtr0 = False
         self.refuse = set()             # locations the unit treats as read-only although declared RW
+        self.writes = []                # (location, value) of every write that was stored
 
     @property
     def last(self):
@@ -61,6 +62,7 @@ class MemBank:
         if loc in self.lockable and self.cells[2] != self.unlock_value:
             return None
         self.cells[loc] = val
+        self.writes.append((loc, val))
         if loc == 2 and self.has_latch:
             self.snapshot = list(self.cells) if val == 0xAA else None
         return val
@@ -68,6 +70,8 @@ class MemBank:
     def tick(self):
         """Live memory changes (counters increment) - invisible through a latched snapshot."""
         for first, last in self.live:
+            if any(c is None for c in self.cells[first:last + 1]):
+                continue
             n = int.from_bytes(bytes(self.cells[first:last + 1]), "big") + 0x0101
             n %= 1 << (8 * (last - first + 1))
             for i, b in enumerate(n.to_bytes(last - first + 1, "big")):
